@@ -244,11 +244,19 @@ pub fn c04_case(src: &mut Src, obs: &mut Obs) -> CaseResult {
                     if b.is_empty() {
                         break;
                     }
-                    match src.below(5) {
+                    match src.below(6) {
                         0 => {
                             let i = src.below(b.len());
                             b[i] = src.u8();
                             w.push(format!("poke {i}"));
+                        }
+                        5 => {
+                            // nudge a byte near the end by a little: a framing offset that now points
+                            // just beside an element boundary (into padding, into the offsets)
+                            let i = b.len() - 1 - src.below(b.len().min(12));
+                            let d = 1 + src.below(4) as u8;
+                            b[i] = if src.bool() { b[i].wrapping_add(d) } else { b[i].wrapping_sub(d) };
+                            w.push(format!("nudge-tail {i}"));
                         }
                         1 => {
                             // poke near the end: framing offsets live there
